@@ -3,9 +3,10 @@
    scenario and every initial cluster (prune phase of apply runs and destroy
    runs).  `g_dependents (pl_graph pl) e` are the planned objects that depend
    on e (explicit depends-on, namespace and CRD edges, see `edges_of`). *)
-From Coq Require Import List NArith ZArith.
+From Coq Require Import List Bool NArith ZArith.
 From CliUtils Require Import Model.ActuationTable Model.PipelineTypes Model.Pipeline
-     Proofs.PipelineBase Proofs.PipelineAuth Proofs.PipelineOrder.
+     Proofs.PipelineBase Proofs.PipelineAuth Proofs.PipelineOrder Proofs.PipelineOrphansRun Proofs.PipelineOrderPlan
+     Corr.CorrPipeline Proofs.PipelineOrderMon.
 Import ListNotations.
 
 (* when a delete request for e reaches the server, every dependent d of e has
@@ -73,6 +74,31 @@ Theorem C05_blocked_end_of_run_partial : forall sc c0 pl locals, run_plan sc c0 
   forall u p ok m st, ~ In (IReq (RDelete e u p) ok m st) t.
 Proof. exact delete_blocked_end_of_run. Qed.
 
+(* end-of-run form for well-formed scenarios: if a dependent d of e is bad at
+   the END of the run -- invalid, or an apply object of the run, or no prune
+   object of the plan, or some Failed / Skipped delete event of d occurs
+   anywhere in the trace, or (outside dry-run) the last wait event of d in the
+   whole trace is Failed / Timeout / Skipped -- then e is never deleted *)
+Theorem C05_blocked : forall sc c0 pl locals, WF sc c0 -> run_plan sc c0 = Some (pl, locals) ->
+  forall e d, In d (g_dependents (pl_graph pl) e) ->
+  (In d (pl_invalid pl) \/ In d (map p_id (pl_apply pl)) \/ ~ In d (map p_id (pl_prune pl)) \/
+   (exists g, In (IEv (EPrune g d AFail)) (out_trace (run sc c0)) \/ In (IEv (EPrune g d ASkip)) (out_trace (run sc c0))) \/
+   (o_dry (sc_opts sc) = DNone /\
+    exists w, last_wait_is (out_trace (run sc c0)) d w /\ (w = WFailed \/ w = WTimedOut \/ w = WSkipped))) ->
+  forall u p ok m st, ~ In (IReq (RDelete e u p) ok m st) (out_trace (run sc c0)).
+Proof. exact delete_blocked. Qed.
+
+(* the executable monitor of the correspondence harness: mon_C05 is the
+   conjunction of an ordering part and an inventory part ("a dependency that was
+   not deleted stays in the inventory"); the ordering part holds on the model's
+   run, for every scenario; the inventory part is a statement about the final
+   inventory (retention table of the inventory-set task) and is not derived here *)
+Theorem C05_monitor_split : forall sc c0 out,
+  mon_C05 sc c0 out = mon_C05_order sc c0 out && mon_C05_inventory sc c0 out.
+Proof. exact mon_C05_split. Qed.
+Theorem C05_monitor_order : forall sc c0, mon_C05_order sc c0 (run sc c0) = true.
+Proof. exact mon_C05_order_holds. Qed.
+
 (* non-vacuity: a destroy run over namespace 0 and object 2 inside it: 2 is
    deleted and observed gone before 0 is deleted; with the delete of 2
    rejected, 0 is never deleted; an apply run whose manifest keeps 2 with a
@@ -112,3 +138,6 @@ Print Assumptions C05_blocked_partial.
 Print Assumptions C05_blocked_at_request_partial.
 Print Assumptions C05_blocked_static.
 Print Assumptions C05_blocked_end_of_run_partial.
+Print Assumptions C05_blocked.
+Print Assumptions C05_monitor_split.
+Print Assumptions C05_monitor_order.
